@@ -169,7 +169,7 @@ Subsets(m) == (SUBSET (1..(m + 1))) \ {{}}
 DecidePairDup ==
     /\ phase = "new" /\ out.grp = "pair_dup"
     /\ \E l \in 2..3 : \E ks \in [1..l -> 1..(out.m + 1)] : \E kinds \in [1..l -> {"ok", "nil"}] :
-          /\ \E i, j \in 1..l : i # j /\ ks[i] = ks[j]
+          /\ Cardinality({ks[i] : i \in 1..l}) < l
           /\ out' = PairCaseV("skipping_dup", out.m, out.pw,
                               [i \in 1..l |-> Val(ks[i], IF ks[i] <= out.m THEN out.pw[ks[i]] ELSE 1)],
                               kinds, 2, 1, "after", FALSE, FALSE)
